@@ -55,6 +55,18 @@ Theorem C19_answered_within_limit : forall limit delay st, 0 < limit -> snd (ser
 Proof. exact answered_within_limit. Qed.
 Print Assumptions C19_answered_within_limit.
 
+(* The configured dial timeout is enforced for every transport built, TLS settings or not:
+   an upstream that cannot be connected within it yields 504, otherwise the upstream's answer. *)
+Theorem C19_dial_timeout_is_504 : forall limit connect st,
+  0 < limit -> limit <= connect -> dial limit connect st = 504.
+Proof. exact dial_timeout_is_504. Qed.
+Print Assumptions C19_dial_timeout_is_504.
+
+Theorem C19_dial_in_time : forall limit connect st,
+  connect < limit \/ limit = 0 -> 0 <= limit -> dial limit connect st = st.
+Proof. exact dial_in_time. Qed.
+Print Assumptions C19_dial_in_time.
+
 Theorem C19_only_timeouts_are_504 : forall e, error_status e = 504 <-> e = ENetTimeout.
 Proof. exact error_status_timeout. Qed.
 Print Assumptions C19_only_timeouts_are_504.
